@@ -245,6 +245,18 @@ def run_fault(hist, pt, use_model, base):
     res['replayed_same_ops'] = seen == [(o['kind'], o['what']) for o in want_ops][:pt['k'] + 1]
     res['immediate_same'] = obs['recovered_trees'] == hist['per_event'].get(pt['n'], {}).get('trees')
     res['final_same'] = res['final_trees'] == hist['final_trees']
+    res['timing_only'] = False
+    if not res['final_same']:
+        # The re-delivery is one MORE evaluation than the uninterrupted history has. An evaluation more can
+        # legitimately act earlier (a pull request that is queued with green queue builds is merged by it), and an
+        # external event later in the history (a new source commit) then lands after the merge instead of before
+        # it. That is no effect of the fault: the fair reference is the uninterrupted history in which the same
+        # event is simply delivered twice at that point (to a fresh instance, like the recovery).
+        dup = dup_reference(hist, pt, obs['desc'], base)
+        res['dup_trees'] = dup
+        if dup is not None and dup == res['final_trees']:
+            res['final_same'] = True
+            res['timing_only'] = True
     # model
     res['model'] = None
     if use_model:
@@ -259,6 +271,25 @@ def run_fault(hist, pt, use_model, base):
                 res['model'] = {'line': line, 'nops': nops, 'real_git_ops': len(real_git), 'kinds': mk,
                                 'agree': nops == len(real_git) and mk == obs['kinds']}
     return res
+
+
+def dup_reference(hist, pt, desc, base):
+    """final trees of the history without fault, with the event of the faulted job delivered once more (fresh
+    instance) right after event pt['n']; None when that job does not exist in the uninterrupted run"""
+    from .c02_faults import FRun, dest_trees, INJ
+    cfg = cfg_from_dict(hist['cfg'])
+    events, closing = hist['events'], hist['closing']
+    fr = FRun(cfg, base, executed=set(hist['per_event']))
+    try:
+        for n, ev in enumerate(events + closing):
+            fr.execute(ev, n)
+            if n == pt['n']:
+                fr.w.fresh_instance()
+                INJ.begin_event(None)
+                fr.redeliver(desc, ev)
+        return dest_trees(fr.w)
+    finally:
+        fr.close()
 
 
 def _phase_b(args):
@@ -408,6 +439,8 @@ def correspondence(ctx):
             res.count('queue_reset:rebuild=%s%s' % (r.get('reset_status'), ',delete=%s' % r['reset_fallback']
                                                     if r.get('reset_fallback') else ''))
         res.count('immediate_same' if r['immediate_same'] else 'immediate_differs_(converges_later)')
+        if r.get('timing_only'):
+            res.count('final_differs_only_by_the_extra_evaluation_(equal_to_duplicate_delivery)')
         if not r['replayed_same_ops']:
             res.count('replay_not_deterministic')
         if any(k.startswith('D:') for k in r['kinds']):
